@@ -64,11 +64,14 @@ let slots inp impl =
    connection is served. *)
 let idle inp impl =
   match inp with
-  | [k; _timeout] ->
+  | k :: _timeout :: mode ->
+    (* mode: the connections first make a request (default), stay silent from
+       the start, or stall inside their first frame (header / body) *)
     let k = int_of_string k in
     let s = ref (step (init (nat_of_int k)) Start) in
     for i = 1 to k do
-      let c = nat_of_int i in s := steps !s [Arrive c; Take c; Enrol c; Req c]
+      let c = nat_of_int i in
+      s := steps !s ([Arrive c; Take c; Enrol c] @ (if mode = [] then [Req c] else []))
     done;
     for i = 1 to k do
       let c = nat_of_int i in s := steps !s [End (c, IdleExpiry); Remove c]
